@@ -59,6 +59,10 @@ def confirm(d):
         print(json.dumps(rec, indent=1))
         return rec
     fname, dest, pkgdir, runre = tgt
+    if not dest.startswith("src/"):
+        rec["error"] = "demo target outside src/: handle manually: " + dest
+        print(json.dumps(rec, indent=1))
+        return rec
     shutil.copyfile(os.path.join(d, fname), os.path.join(wt, dest))
     pk = "./" + os.path.relpath(os.path.join(wt, pkgdir), os.path.join(wt, "src"))
     cmd = "go test -vet=off -count=1 -timeout 300s -run '%s' %s" % (runre, pk)
